@@ -317,7 +317,8 @@ class Check:
             "violations": len(seen),
         }
         # evidence comes from runs against /repo itself; runs against a scratch copy (seeded changes) write elsewhere
-        evdir = os.path.join(VERIF, "evidence") if os.path.realpath(REPO) == "/repo" else os.path.join(VERIF, ".work", "evidence-scratch")
+        evdir = (os.path.join(VERIF, "evidence") if os.path.realpath(REPO) == "/repo" and not self.replay
+                 else os.path.join(VERIF, ".work", "evidence-scratch"))
         os.makedirs(evdir, exist_ok=True)
         tmp = os.path.join(evdir, self.pid + ".json.tmp")
         json.dump(ev, open(tmp, "w"), indent=1)
